@@ -259,7 +259,30 @@ func TestC13(t *testing.T) {
 				mut := "valid"
 				if rapid.IntRange(0, 2).Draw(t, "mutate") == 0 {
 					c.classes["invalid_distributor_payload"] = true
-					switch rapid.IntRange(0, 4).Draw(t, "dmut") {
+					switch rapid.IntRange(0, 10).Draw(t, "dmut") {
+					case 5:
+						n.Subs[0].Primary = n.Subs[0].Sources[0]
+						mut = "same_account_twice_in_one_subdistributor"
+					case 6:
+						n.Subs[0].Shares = []DShare{{Name: "h1", Share: "500000000000000000", Dest: DAcc{Type: tModule, Id: "green_energy_booster_collector"}},
+							{Name: "h2", Share: "500000000000000000", Dest: DAcc{Type: tModule, Id: "governance_booster_collector"}}}
+						n.Subs[0].Burn = "0"
+						if n.Subs[0].Primary.Id == "green_energy_booster_collector" || n.Subs[0].Primary.Id == "governance_booster_collector" {
+							n.Subs[0].Primary = DAcc{Type: tModule, Id: "validators_rewards_collector"}
+						}
+						mut = "share_sum_one"
+					case 7:
+						n.Subs[0].Primary = DAcc{Type: tModule, Id: "no_such_module"}
+						mut = "unknown_module_account"
+					case 8:
+						n.Subs[0].Primary = DAcc{Type: tBase, Id: "c4e1notanaddress"}
+						mut = "invalid_base_address"
+					case 9:
+						n.Subs[0].Primary = DAcc{Type: tModule, Id: distrtypes.DistributorMainAccount}
+						mut = "main_account_as_module_account"
+					case 10:
+						n.Subs[0].Primary = DAcc{Type: "SOMETHING", Id: "x"}
+						mut = "unknown_account_type"
 					case 0:
 						n.Subs = append(n.Subs, n.Subs[0])
 						mut = "duplicate_name"
